@@ -1,123 +1,164 @@
 (* C17 — proofs about Model/Transport.v *)
 From PG Require Import Lib.Strs Model.Transport.
 
-(* ---------- case-consistent pools ---------- *)
-Lemma case_consistent_eqb : forall P a b,
-  case_consistent P = true -> In a P -> In b P ->
-  str_eqb a b = str_eqb (lower_str a) (lower_str b).
-Proof.
-  intros P a b HP Ha Hb. unfold case_consistent in HP.
-  rewrite forallb_forall in HP. specialize (HP a Ha).
-  rewrite forallb_forall in HP. specialize (HP b Hb).
-  unfold case_ok2 in HP.
-  destruct (str_eqb a b) eqn:E.
-  - apply str_eqb_eq in E. subst. symmetry. apply str_eqb_refl.
-  - destruct (str_eqb (lower_str a) (lower_str b)); simpl in HP; [discriminate | reflexivity].
-Qed.
+(* ---------- one value per case-insensitive name ---------- *)
+Definition lkey (kv : str * str) : str := lower_str (fst kv).
+Definition unique_ci (h : dict) : Prop := NoDup (map lkey h).
 
-Lemma onwire_aset : forall P h k v,
-  case_consistent P = true -> incl (map fst h) P -> In k P ->
-  on_wire_headers (aset h k v) = aset (on_wire_headers h) (lower_str k) v.
+Lemma wire_values_none : forall h n, ~ In n (map lkey h) -> wire_values n h = [].
 Proof.
-  intros P h k v HP. induction h as [|[k' v'] h IH]; intros Hin Hk; simpl.
+  induction h as [|[k v] h IH]; intros n Hn; unfold wire_values in *; simpl in *.
   - reflexivity.
-  - assert (Hk' : In k' P) by (apply Hin; simpl; auto).
-    rewrite <- (case_consistent_eqb P k k' HP Hk Hk').
-    destruct (str_eqb k k') eqn:E; simpl.
-    + reflexivity.
-    + f_equal. apply IH; auto. intros x Hx. apply Hin. simpl. auto.
+  - destruct (str_eqb (lower_str k) n) eqn:E.
+    + apply str_eqb_eq in E. exfalso. apply Hn. left. exact E.
+    + apply IH. intro H. apply Hn. right. exact H.
 Qed.
 
-Lemma keys_aset : forall (h : dict) k v x,
-  In x (map fst (aset h k v)) -> In x (map fst h) \/ x = k.
+Definition keepP (k : str) (kv : str * str) : bool := str_eqb (fst kv) k || negb (same_ci (fst kv) k).
+
+Lemma filter_keys_incl : forall (P : str * str -> bool) h x, In x (map lkey (filter P h)) -> In x (map lkey h).
 Proof.
-  induction h as [|[k' v'] h IH]; intros k v x H; simpl in *.
-  - destruct H as [H|[]]. auto.
+  induction h as [|kv h IH]; intros x Hx; simpl in *; [exact Hx|].
+  destruct (P kv); simpl in Hx.
+  - destruct Hx as [Hx|Hx]; auto.
+  - auto.
+Qed.
+
+Lemma unique_ci_filter : forall (P : str * str -> bool) h, unique_ci h -> unique_ci (filter P h).
+Proof.
+  unfold unique_ci. induction h as [|kv h IH]; intro H; simpl; [constructor|].
+  inversion H as [|? ? Hn Hd]; subst. destruct (P kv); simpl.
+  - constructor; [|apply IH; exact Hd]. intro Hin. apply Hn. eapply filter_keys_incl. exact Hin.
+  - apply IH. exact Hd.
+Qed.
+
+(* in the filtered dict, a name equal to k modulo case IS k *)
+Definition only_k (k : str) (f : dict) : Prop :=
+  forall kv, In kv f -> lower_str (fst kv) = lower_str k -> fst kv = k.
+
+Lemma only_k_filter : forall k h, only_k k (filter (keepP k) h).
+Proof.
+  intros k h kv Hin Hl. apply filter_In in Hin. destruct Hin as [_ HP]. unfold keepP, same_ci in HP.
+  apply orb_true_iff in HP. destruct HP as [HP|HP].
+  - apply str_eqb_eq in HP. exact HP.
+  - rewrite Hl, str_eqb_refl in HP. discriminate.
+Qed.
+
+Lemma wire_values_filter_other : forall k h n, n <> lower_str k ->
+  wire_values n (filter (keepP k) h) = wire_values n h.
+Proof.
+  intros k h n Hn. unfold wire_values. induction h as [|[k' v'] h IH]; simpl; [reflexivity|].
+  unfold keepP at 1, same_ci. cbn [fst].
+  destruct (str_eqb (lower_str k') n) eqn:E.
+  - assert (Hk : str_eqb (lower_str k') (lower_str k) = false).
+    { apply str_eqb_neq. apply str_eqb_eq in E. congruence. }
+    rewrite Hk. rewrite orb_true_r. simpl. rewrite E. simpl. f_equal. exact IH.
+  - destruct (str_eqb k' k || negb (str_eqb (lower_str k') (lower_str k))); simpl; rewrite ?E; exact IH.
+Qed.
+
+Lemma wire_values_aset_other : forall f k v n, n <> lower_str k ->
+  wire_values n (aset f k v) = wire_values n f.
+Proof.
+  intros f k v n Hn. unfold wire_values. induction f as [|[k' v'] f IH]; simpl.
+  - assert (E : str_eqb (lower_str k) n = false) by (apply str_eqb_neq; congruence).
+    rewrite E. reflexivity.
+  - destruct (str_eqb k k') eqn:Ek; simpl.
+    + apply str_eqb_eq in Ek. subst k'.
+      assert (E : str_eqb (lower_str k) n = false) by (apply str_eqb_neq; congruence).
+      rewrite E. reflexivity.
+    + destruct (str_eqb (lower_str k') n); simpl; rewrite IH; reflexivity.
+Qed.
+
+Lemma wire_values_aset_same : forall f k v, only_k k f -> unique_ci f ->
+  wire_values (lower_str k) (aset f k v) = [v].
+Proof.
+  intros f k v. induction f as [|[k' v'] f IH]; intros Ho Hu; unfold wire_values in *; simpl.
+  - rewrite str_eqb_refl. reflexivity.
+  - inversion Hu as [|? ? Hn Hd]; subst.
+    destruct (str_eqb k k') eqn:Ek; simpl.
+    + apply str_eqb_eq in Ek. subst k'. rewrite str_eqb_refl. simpl. f_equal.
+      apply (wire_values_none f (lower_str k)). exact Hn.
+    + destruct (str_eqb (lower_str k') (lower_str k)) eqn:El.
+      * apply str_eqb_eq in El. exfalso.
+        assert (k' = k) by (apply (Ho (k', v')); [left; reflexivity | exact El]).
+        subst. rewrite str_eqb_refl in Ek. discriminate.
+      * apply IH; [|exact Hd]. intros kv Hin. apply Ho. right. exact Hin.
+Qed.
+
+Lemma aset_keys_ci : forall f k v x, In x (map lkey (aset f k v)) -> In x (map lkey f) \/ x = lower_str k.
+Proof.
+  induction f as [|[k' v'] f IH]; intros k v x H; simpl in *.
+  - destruct H as [H|[]]. right. symmetry. exact H.
   - destruct (str_eqb k k') eqn:E; simpl in H.
     + destruct H as [H|H]; auto.
     + destruct H as [H|H]; auto. apply IH in H. tauto.
 Qed.
 
-Lemma keys_aset_incl : forall P (h : dict) k v,
-  incl (map fst h) P -> In k P -> incl (map fst (aset h k v)) P.
+Lemma unique_ci_aset : forall f k v, only_k k f -> unique_ci f -> unique_ci (aset f k v).
 Proof.
-  intros P h k v Hh Hk x Hx. apply keys_aset in Hx. destruct Hx as [Hx|Hx]; subst; auto.
+  unfold unique_ci. induction f as [|[k' v'] f IH]; intros k v Ho Hu; simpl.
+  - constructor; [intros [] | constructor].
+  - inversion Hu as [|? ? Hn Hd]; subst. destruct (str_eqb k k') eqn:E; simpl.
+    + exact Hu.
+    + constructor.
+      * intro Hin. apply aset_keys_ci in Hin. destruct Hin as [Hin|Hin]; [contradiction|].
+        unfold lkey in Hin. cbn [fst] in Hin.
+        assert (k' = k) by (apply (Ho (k', v')); [left; reflexivity | exact Hin]).
+        subst. rewrite str_eqb_refl in E. discriminate.
+      * apply IH; [|exact Hd]. intros kv Hin. apply Ho. right. exact Hin.
 Qed.
 
-Lemma nodup_aset : forall (d : dict) k v, NoDup (map fst d) -> NoDup (map fst (aset d k v)).
+Lemma wire_values_hset : forall h k v n, unique_ci h ->
+  wire_values n (hset h k v) = if str_eqb n (lower_str k) then [v] else wire_values n h.
 Proof.
-  induction d as [|[k' v'] d IH]; intros k v H; simpl.
-  - constructor; [intros [] | constructor].
-  - destruct (str_eqb k k') eqn:E; simpl.
-    + exact H.
-    + inversion H as [|? ? Hn Hd]; subst. constructor.
-      * intro Hin. apply keys_aset in Hin. destruct Hin as [Hin|Hin]; [contradiction|].
-        subst. rewrite str_eqb_refl in E. discriminate.
-      * apply IH. exact Hd.
+  intros h k v n Hu. unfold hset. fold (keepP k).
+  destruct (str_eqb n (lower_str k)) eqn:E.
+  - apply str_eqb_eq in E. subst n. apply wire_values_aset_same.
+    + apply only_k_filter.
+    + apply unique_ci_filter. exact Hu.
+  - apply str_eqb_neq in E. rewrite wire_values_aset_other by exact E.
+    apply wire_values_filter_other. exact E.
+Qed.
+
+Lemma unique_ci_hset : forall h k v, unique_ci h -> unique_ci (hset h k v).
+Proof.
+  intros h k v Hu. unfold hset. fold (keepP k). apply unique_ci_aset.
+  - apply only_k_filter.
+  - apply unique_ci_filter. exact Hu.
+Qed.
+
+Lemma expect_values_ci_set : forall m k v n,
+  expect_values n (ci_set m k v) = if str_eqb n (lower_str k) then [v] else expect_values n m.
+Proof.
+  intros m k v n. unfold expect_values, ci_set. destruct (str_eqb n (lower_str k)) eqn:E.
+  - apply str_eqb_eq in E. subst n. rewrite alookup_aset_same. reflexivity.
+  - apply str_eqb_neq in E. rewrite alookup_aset_other by exact E. reflexivity.
 Qed.
 
 (* ---------- invariant linking the implementation's headers to the documented ones ---------- *)
-Definition Rel (P : list str) (h : dict) (m : dict) : Prop :=
-  m = on_wire_headers h /\ incl (map fst h) P /\ NoDup (map fst m).
+Definition Rel (h : dict) (m : dict) : Prop :=
+  unique_ci h /\ forall n, wire_values n h = expect_values n m.
 
-Lemma Rel_nil : forall P, Rel P [] [].
-Proof. intro P. repeat split; simpl; [intros x [] | constructor]. Qed.
+Lemma Rel_nil : Rel [] [].
+Proof. split; [constructor | reflexivity]. Qed.
 
-Lemma Rel_aset : forall P h m k v,
-  case_consistent P = true -> In k P -> Rel P h m -> Rel P (aset h k v) (ci_set m k v).
+Lemma Rel_hset : forall h m k v, Rel h m -> Rel (hset h k v) (ci_set m k v).
 Proof.
-  intros P h m k v HP Hk (Hm & Hin & Hnd). subst m. unfold ci_set.
-  repeat split.
-  - symmetry. eapply onwire_aset; eauto.
-  - apply keys_aset_incl; auto.
-  - apply nodup_aset. exact Hnd.
+  intros h m k v [Hu Hv]. split.
+  - apply unique_ci_hset. exact Hu.
+  - intro n. rewrite wire_values_hset by exact Hu. rewrite expect_values_ci_set.
+    destruct (str_eqb n (lower_str k)); [reflexivity | apply Hv].
 Qed.
 
-Lemma Rel_aupdate : forall P d h m,
-  case_consistent P = true -> incl (map fst d) P -> Rel P h m ->
-  Rel P (aupdate h d) (ci_update m d).
+Lemma Rel_hupdate : forall d h m, Rel h m -> Rel (hupdate h d) (ci_update m d).
 Proof.
-  intros P d. induction d as [|[k v] d IH]; intros h m HP Hd HR; simpl.
+  induction d as [|[k v] d IH]; intros h m HR; unfold hupdate, ci_update in *; simpl.
   - exact HR.
-  - unfold aupdate, ci_update in *. simpl. apply IH; auto.
-    + intros x Hx. apply Hd. simpl. auto.
-    + apply Rel_aset; auto. apply Hd. simpl. auto.
+  - apply IH. apply Rel_hset. exact HR.
 Qed.
 
-(* one value per name on the wire, equal to the documented one *)
-Lemma values_nodup : forall (m : dict) n,
-  NoDup (map fst m) ->
-  map snd (filter (fun kv => str_eqb (fst kv) n) m) = expect_values n m.
-Proof.
-  induction m as [|[k v] m IH]; intros n Hnd; unfold expect_values; simpl.
-  - reflexivity.
-  - inversion Hnd as [|? ? Hn Hd]; subst.
-    destruct (str_eqb k n) eqn:E.
-    + apply str_eqb_eq in E. subst k. rewrite str_eqb_refl. simpl. f_equal.
-      assert (Hnone : alookup n m = None).
-      { clear -Hn. induction m as [|[k' v'] m IH]; simpl; auto.
-        destruct (str_eqb n k') eqn:E.
-        - apply str_eqb_eq in E. subst. exfalso. apply Hn. simpl. auto.
-        - apply IH. intro H. apply Hn. simpl. auto. }
-      specialize (IH n Hd). unfold expect_values in IH. rewrite Hnone in IH. exact IH.
-    + assert (E' : str_eqb n k = false).
-      { apply str_eqb_neq. intro. subst. rewrite str_eqb_refl in E. discriminate. }
-      rewrite E'. apply IH. exact Hd.
-Qed.
-
-Lemma wire_values_onwire : forall h n,
-  wire_values n h = map snd (filter (fun kv => str_eqb (fst kv) n) (on_wire_headers h)).
-Proof.
-  induction h as [|[k v] h IH]; intro n; unfold wire_values in *; simpl.
-  - reflexivity.
-  - destruct (str_eqb (lower_str k) n); simpl; rewrite IH; reflexivity.
-Qed.
-
-Lemma Rel_values : forall P h m n, Rel P h m -> wire_values n h = expect_values n m.
-Proof.
-  intros P h m n (Hm & _ & Hnd). rewrite wire_values_onwire. subst m.
-  apply values_nodup. exact Hnd.
-Qed.
+Lemma Rel_values : forall h m n, Rel h m -> wire_values n h = expect_values n m.
+Proof. intros h m n [_ H]. apply H. Qed.
 
 (* ---------- plugins ---------- *)
 Section PluginInd.
@@ -142,56 +183,48 @@ Section PluginInd.
     end.
 End PluginInd.
 
-Definition SRel (P : list str) (a : scratch) (e : expect) : Prop :=
-  (exists h, sc_headers a = Some h /\ Rel P h (e_headers e))
+Definition SRel (a : scratch) (e : expect) : Prop :=
+  (exists h, sc_headers a = Some h /\ Rel h (e_headers e))
   /\ sc_params a = e_params e /\ sc_cookies a = e_cookies e.
 
-Definition step_ok (P : list str) (p : plugin) : Prop :=
-  forall a e, incl (plugin_names p) P -> SRel P a e ->
+Definition step_ok (p : plugin) : Prop :=
+  forall a e, SRel a e ->
   match auth_step p a, spec_plugin p e with
-  | (p1, Ok a'), (p2, Ok e') => p1 = p2 /\ SRel P a' e' /\ plugin_names p1 = plugin_names p
-  | (p1, Err), (p2, Err) => p1 = p2 /\ plugin_names p1 = plugin_names p
+  | (p1, Ok a'), (p2, Ok e') => p1 = p2 /\ SRel a' e'
+  | (p1, Err), (p2, Err) => p1 = p2
   | _, _ => False
   end.
 
-Lemma in_Auth : forall P, incl [s_Authorization] P -> In s_Authorization P.
-Proof. intros P H. apply H. simpl. auto. Qed.
-
-Lemma step_ok_all : forall P, case_consistent P = true -> forall p, step_ok P p.
+Lemma step_ok_all : forall p, step_ok p.
 Proof.
-  intros P HP. induction p using plugin_ind'; unfold step_ok; intros a e Hn ((h0 & Hh & HR) & Hpa & Hco).
+  induction p using plugin_ind'; unfold step_ok; intros a e ((h0 & Hh & HR) & Hpa & Hco).
   - (* Bearer *)
     cbn [auth_step spec_plugin]. rewrite Hh. cbn [get_or_empty].
-    split; [reflexivity|]. split; [|reflexivity]. split; [|split; assumption].
-    exists (aset h0 s_Authorization (s_Bearer_sp ++ t)). split; [reflexivity|].
-    cbn [e_headers]. apply Rel_aset; auto. apply in_Auth. exact Hn.
+    split; [reflexivity|]. split; [|split; assumption].
+    eexists. split; [reflexivity|]. cbn [e_headers]. apply Rel_hset. exact HR.
   - (* HeadersP *)
     cbn [auth_step spec_plugin]. rewrite Hh. cbn [get_or_empty].
-    split; [reflexivity|]. split; [|reflexivity]. split; [|split; assumption].
-    exists (aupdate h0 h). split; [reflexivity|].
-    cbn [e_headers]. apply Rel_aupdate; auto.
+    split; [reflexivity|]. split; [|split; assumption].
+    eexists. split; [reflexivity|]. cbn [e_headers]. apply Rel_hupdate. exact HR.
   - (* ApiKey *)
-    cbn [auth_step spec_plugin]. cbn [plugin_names] in Hn.
+    cbn [auth_step spec_plugin].
     destruct (str_eqb l s_header) eqn:E1.
     + rewrite Hh. cbn [get_or_empty].
-      split; [reflexivity|]. split; [|cbn [plugin_names]; rewrite E1; reflexivity].
-      split; [|split; assumption].
-      exists (aset h0 n k). split; [reflexivity|]. cbn [e_headers]. apply Rel_aset; auto.
-      apply Hn. simpl. auto.
+      split; [reflexivity|]. split; [|split; assumption].
+      eexists. split; [reflexivity|]. cbn [e_headers]. apply Rel_hset. exact HR.
     + destruct (str_eqb l s_query) eqn:E2.
-      * split; [reflexivity|]. split; [|cbn [plugin_names]; rewrite E1; reflexivity].
+      * split; [reflexivity|].
         split; [exists h0; split; assumption|]. cbn [sc_params e_params sc_cookies e_cookies].
         rewrite Hpa. split; [reflexivity | assumption].
       * destruct (str_eqb l s_cookie) eqn:E3.
-        -- split; [reflexivity|]. split; [|cbn [plugin_names]; rewrite E1; reflexivity].
+        -- split; [reflexivity|].
            split; [exists h0; split; assumption|]. cbn [sc_params e_params sc_cookies e_cookies].
            rewrite Hco. split; [assumption | reflexivity].
-        -- split; [reflexivity|]. cbn [plugin_names]. rewrite E1. reflexivity.
+        -- reflexivity.
   - (* OAuth2 *)
     cbn [auth_step spec_plugin]. rewrite Hh. cbn [get_or_empty].
-    split; [reflexivity|]. split; [|reflexivity]. split; [|split; assumption].
-    eexists. split; [reflexivity|].
-    cbn [e_headers]. apply Rel_aset; auto. apply in_Auth. exact Hn.
+    split; [reflexivity|]. split; [|split; assumption].
+    eexists. split; [reflexivity|]. cbn [e_headers]. apply Rel_hset. exact HR.
   - (* Composite *)
     cbn [auth_step spec_plugin].
     set (goA := fix go (ps : list plugin) (a : scratch) : list plugin * result scratch :=
@@ -212,43 +245,31 @@ Proof.
             | (q', Err) => (q' :: qs, Err)
             end
         end).
-    assert (Hgo : forall ps, Forall (step_ok P) ps -> forall a e,
-              incl (flat_map plugin_names ps) P -> SRel P a e ->
+    assert (Hgo : forall ps, Forall step_ok ps -> forall a e, SRel a e ->
               match goA ps a, goS ps e with
-              | (l1, Ok a'), (l2, Ok e') =>
-                  l1 = l2 /\ SRel P a' e' /\ flat_map plugin_names l1 = flat_map plugin_names ps
-              | (l1, Err), (l2, Err) =>
-                  l1 = l2 /\ flat_map plugin_names l1 = flat_map plugin_names ps
+              | (l1, Ok a'), (l2, Ok e') => l1 = l2 /\ SRel a' e'
+              | (l1, Err), (l2, Err) => l1 = l2
               | _, _ => False
               end).
-    { clear. induction ps as [|q qs IH]; intros HF a e Hn HR.
-      - simpl. split; [reflexivity|]. split; [exact HR | reflexivity].
+    { clear. induction ps as [|q qs IH]; intros HF a e HR.
+      - simpl. split; [reflexivity | exact HR].
       - inversion HF as [|? ? Hq Hqs]; subst.
-        cbn [flat_map] in Hn.
-        assert (Hn1 : incl (plugin_names q) P) by (intros x Hx; apply Hn; apply in_or_app; auto).
-        assert (Hn2 : incl (flat_map plugin_names qs) P) by (intros x Hx; apply Hn; apply in_or_app; auto).
-        specialize (Hq a e Hn1 HR).
+        specialize (Hq a e HR).
         cbn [goA goS]. fold goA. fold goS.
         destruct (auth_step q a) as [q1 [a1|]]; destruct (spec_plugin q e) as [q2 [e1|]]; try contradiction.
-        + destruct Hq as (-> & HR1 & Hnm).
-          specialize (IH Hqs a1 e1 Hn2 HR1).
+        + destruct Hq as (-> & HR1).
+          specialize (IH Hqs a1 e1 HR1).
           destruct (goA qs a1) as [l1 [a2|]]; destruct (goS qs e1) as [l2 [e2|]]; try contradiction.
-          * destruct IH as (-> & HR2 & Hnm2).
-            split; [reflexivity|]. split; [assumption|]. cbn [flat_map]. rewrite Hnm, Hnm2. reflexivity.
-          * destruct IH as (-> & Hnm2). split; [reflexivity|].
-            cbn [flat_map]. rewrite Hnm, Hnm2. reflexivity.
-        + destruct Hq as (-> & Hnm). split; [reflexivity|].
-          cbn [flat_map]. rewrite Hnm. reflexivity. }
-    cbn [plugin_names] in Hn.
-    specialize (Hgo ps H a e Hn (conj (ex_intro _ h0 (conj Hh HR)) (conj Hpa Hco))).
+          * destruct IH as (-> & HR2). split; [reflexivity | exact HR2].
+          * subst l2. reflexivity.
+        + subst q2. reflexivity. }
+    specialize (Hgo ps H a e (conj (ex_intro _ h0 (conj Hh HR)) (conj Hpa Hco))).
     destruct (goA ps a) as [l1 [a2|]]; destruct (goS ps e) as [l2 [e2|]]; try contradiction.
-    + destruct Hgo as (-> & HR2 & Hnm2). repeat split; auto; apply HR2.
-    + destruct Hgo as (-> & Hnm2). repeat split; auto.
+    + destruct Hgo as (-> & HR2). split; [reflexivity | exact HR2].
+    + subst l2. reflexivity.
 Qed.
 
 (* ---------- one request ---------- *)
-Definition guard (t : transport) (kw : kwargs) : bool := guard_F17b t kw.
-
 Definition agrees (t : transport) (kw : kwargs) : Prop :=
   match request t kw, spec_request t kw with
   | (t1, Ok w), (t2, Ok e) => t1 = t2 /\ meets w e kw
@@ -256,49 +277,34 @@ Definition agrees (t : transport) (kw : kwargs) : Prop :=
   | _, _ => False
   end.
 
-Lemma request_agrees : forall t kw, guard t kw = true ->
-  agrees t kw /\ (forall kw', guard (fst (request t kw)) kw' = guard t kw').
+Lemma request_agrees : forall t kw, agrees t kw.
 Proof.
-  intros t kw Hb. unfold guard in *.
-  unfold guard_F17b in Hb. set (P := all_names t kw) in *.
-  assert (HinD : incl (map fst (truthy_dict (t_defaults t))) P).
-  { intros x Hx. unfold P, all_names. apply in_or_app. auto. }
-  assert (HinK : incl (map fst (truthy_dict (k_headers kw))) P).
-  { intros x Hx. unfold P, all_names. apply in_or_app. right. apply in_or_app. auto. }
-  assert (HR1 : Rel P (match k_headers kw with
-                       | Some h => aupdate (aupdate [] (truthy_dict (t_defaults t))) h
-                       | None => aupdate [] (truthy_dict (t_defaults t)) end)
-                      (ci_update (ci_update [] (truthy_dict (t_defaults t))) (truthy_dict (k_headers kw)))).
-  { destruct (k_headers kw) as [h|]; cbn [truthy_dict] in *.
-    - apply Rel_aupdate; auto. apply Rel_aupdate; auto. apply Rel_nil.
-    - simpl. apply Rel_aupdate; auto. apply Rel_nil. }
+  intros t kw.
+  assert (HR1 : Rel (match k_headers kw with
+                     | Some h => hupdate (hupdate [] (truthy_dict (t_defaults t))) h
+                     | None => hupdate [] (truthy_dict (t_defaults t)) end)
+                    (ci_update (ci_update [] (truthy_dict (t_defaults t))) (truthy_dict (k_headers kw)))).
+  { destruct (k_headers kw) as [h|]; cbn [truthy_dict].
+    - apply Rel_hupdate. apply Rel_hupdate. apply Rel_nil.
+    - simpl. apply Rel_hupdate. apply Rel_nil. }
   unfold agrees, request, spec_request, prepare_headers.
   destruct (t_auth t) as [a|] eqn:EA.
-  - assert (HinA : incl (plugin_names a) P).
-    { intros x Hx. unfold P, all_names. rewrite EA. apply in_or_app. right. apply in_or_app. auto. }
-    pose proof (step_ok_all P Hb a) as Hs. unfold step_ok in Hs.
+  - pose proof (step_ok_all a) as Hs. unfold step_ok in Hs.
     match goal with |- context [auth_step a ?s] => set (sc := s) end.
     match goal with |- context [spec_plugin a ?s] => set (ex := s) end.
-    specialize (Hs sc ex HinA).
-    assert (HS : SRel P sc ex).
+    assert (HS : SRel sc ex).
     { split; [eexists; split; [reflexivity | exact HR1] | split; reflexivity]. }
-    specialize (Hs HS).
+    specialize (Hs sc ex HS).
     destruct (auth_step a sc) as [a1 [sc1|]]; destruct (spec_plugin a ex) as [a2 [e1|]]; try contradiction.
-    + destruct Hs as (-> & ((h1 & Hh1 & HR2) & Hp & Hc) & Hnm). split.
-      * split; [reflexivity|]. rewrite Hh1. unfold meets. cbn [w_headers w_params w_cookies w_body].
-        repeat split; auto.
-        intro n. eapply Rel_values. exact HR2.
-      * intro kw'. unfold guard_F17b, all_names. cbn [fst t_auth t_defaults t_bearer].
-        rewrite EA, Hnm. reflexivity.
-    + destruct Hs as (-> & Hnm). split; [reflexivity|].
-      intro kw'. unfold guard_F17b, all_names. cbn [fst t_auth t_defaults t_bearer].
-      rewrite EA, Hnm. reflexivity.
+    + destruct Hs as (-> & ((h1 & Hh1 & HR2) & Hp & Hc)).
+      split; [reflexivity|]. rewrite Hh1. unfold meets. cbn [w_headers w_params w_cookies w_body].
+      repeat split; auto. intro n. eapply Rel_values. exact HR2.
+    + subst a2. reflexivity.
   - destruct (t_bearer t) as [tok|] eqn:EB.
-    + split; [|intro; reflexivity]. split; [reflexivity|].
+    + split; [reflexivity|].
       unfold meets. cbn [w_headers w_params w_cookies w_body e_headers e_params e_cookies].
-      repeat split; auto. intro n. eapply Rel_values. apply Rel_aset; eauto.
-      unfold P, all_names. rewrite EA, EB. apply in_or_app. right. apply in_or_app. right. simpl. auto.
-    + split; [|intro; reflexivity]. split; [reflexivity|].
+      repeat split; auto. intro n. eapply Rel_values. apply Rel_hset. exact HR1.
+    + split; [reflexivity|].
       unfold meets. cbn [w_headers w_params w_cookies w_body e_headers e_params e_cookies].
       repeat split; auto. intro n. eapply Rel_values. exact HR1.
 Qed.
@@ -324,52 +330,45 @@ Fixpoint Forall3 {A B C} (R : A -> B -> C -> Prop) (a : list A) (b : list B) (c 
   | _, _, _ => False
   end.
 
-Theorem session_agrees : forall kws t,
-  (forall kw, In kw kws -> guard t kw = true) ->
-  Forall3 agrees1 kws (session t kws) (spec_session t kws).
+Theorem session_agrees : forall kws t, Forall3 agrees1 kws (session t kws) (spec_session t kws).
 Proof.
-  induction kws as [|kw kws IH]; intros t Hg; cbn [session spec_session].
+  induction kws as [|kw kws IH]; intros t; cbn [session spec_session].
   - exact I.
-  - pose proof (request_agrees t kw (Hg kw (or_introl eq_refl))) as [Hag Hinv].
-    unfold agrees in Hag.
+  - pose proof (request_agrees t kw) as Hag. unfold agrees in Hag.
     destruct (request t kw) as [t1 w] eqn:E1. destruct (spec_request t kw) as [t2 e] eqn:E2.
-    cbn [fst] in Hinv.
     destruct w as [w|]; destruct e as [e|]; try contradiction.
-    + destruct Hag as [-> Hm]. cbn [Forall3]. split; [exact Hm|].
-      apply IH. intros kw' Hin. rewrite Hinv. apply Hg. right. exact Hin.
-    + subst t2. cbn [Forall3]. split; [exact I|].
-      apply IH. intros kw' Hin. rewrite Hinv. apply Hg. right. exact Hin.
+    + destruct Hag as [-> Hm]. cbn [Forall3]. split; [exact Hm | apply IH].
+    + subst t2. cbn [Forall3]. split; [exact I | apply IH].
 Qed.
 
-(* ---------- the full statement is false of the faithful model: witnesses ---------- *)
+(* ---------- regression witnesses of the two repaired defects ---------- *)
 Definition s_k : str := [107]. Definition s_v : str := [118].
 Definition s_XD : str := [88;45;68]. Definition s_xd : str := [120;45;100].
-
 Definition kw0 : kwargs := {| k_headers := None; k_params := None; k_cookies := None; k_body := [] |}.
 
-(* formerly finding F17a (fixed in /repo): an API key configured for the query string reaches it *)
+(* formerly F17a: an API key configured for the query string reaches it *)
 Example apikey_query_reaches_wire :
   snd (request {| t_defaults := None; t_auth := Some (ApiKey s_v s_query s_k); t_bearer := None |} kw0)
   = Ok {| w_headers := []; w_params := Some [(s_k, s_v)]; w_cookies := None; w_body := [] |}.
 Proof. reflexivity. Qed.
 
-(* F17b: defaults {"X-D": v} and request {"x-d": k}: both fields are sent *)
+(* formerly F17b: defaults {"X-D": v}, request {"x-d": k}: only the per-request field is sent *)
 Definition t_F17b : transport :=
   {| t_defaults := Some [(s_XD, s_v)]; t_auth := None; t_bearer := None |}.
 Definition kw_F17b : kwargs := {| k_headers := Some [(s_xd, s_k)]; k_params := None; k_cookies := None; k_body := [] |}.
 
-Lemma refuted_F17b : guard_F17b t_F17b kw_F17b = false /\ ~ agrees t_F17b kw_F17b.
-Proof.
-  split; [reflexivity|].
-  unfold agrees. cbn. intros [_ (H & _)]. specialize (H s_xd). vm_compute in H. discriminate.
-Qed.
+Example case_variant_overrides :
+  snd (request t_F17b kw_F17b)
+  = Ok {| w_headers := [(s_xd, s_k)]; w_params := None; w_cookies := None; w_body := [] |}.
+Proof. reflexivity. Qed.
 
-(* non-vacuity: a composite of all header-style plugins with refresh meets the guard *)
-Example guard_nonvacuous :
-  guard {| t_defaults := Some [(s_XD, s_v)];
-           t_auth := Some (Composite [Bearer s_k; HeadersP [(s_XD, s_k)]; ApiKey s_v s_header s_k;
-                                      ApiKey s_v s_query s_k; ApiKey s_v s_cookie s_k;
-                                      OAuth2 s_k (Some [(s_k, s_v)])]);
-           t_bearer := Some s_v |}
-        {| k_headers := Some [(s_XD, s_k)]; k_params := Some [(s_k, s_v)]; k_cookies := None; k_body := s_v |} = true.
+(* a plugin set later wins over an earlier one and over defaults/request, whatever the case *)
+Example composite_order_case_insensitive :
+  option_map (fun w => on_wire_headers (w_headers w))
+    (match snd (request {| t_defaults := Some [(s_xd, s_v)];
+                           t_auth := Some (Composite [HeadersP [(s_XD, s_k)]; HeadersP [(s_xd, s_v ++ s_v)]]);
+                           t_bearer := None |}
+                        {| k_headers := Some [(s_XD, s_k ++ s_k)]; k_params := None; k_cookies := None; k_body := [] |})
+     with Ok w => Some w | Err => None end)
+  = Some [(s_xd, s_v ++ s_v)].
 Proof. reflexivity. Qed.
